@@ -56,4 +56,156 @@ theorem blind_rotation_noise_executed (p : Par) (L : Nat) (hok : BrOk p L) (hN2 
   rw [totalRot_eq] at hν
   exact hν
 
+/-- the phase at one coefficient: `2^(b·S)·val_k(c)` -/
+theorem coef_phR (p : Par) (hN : 0 < p.N) (c : List Col) (k : Nat) (hk : k < p.N) :
+    (RingNu.coefL p.N (phR p c)).getD k 0 = 2 ^ (p.b * p.S) * Core.valCoeff p.b (Core.Ops.phase p.sk (Ks.mkCt p.b p.N c)) k := by
+  unfold phR
+  have h2 : (2 : Ks.R p.N) ^ (p.b * p.S) = (((2 : Int) ^ (p.b * p.S) : Int) : Ks.R p.N) := by push_cast; rfl
+  rw [h2, RingNu.coefL_scale_ι hN _ _ (C02L.valP_length _ _ _)]
+  simp [C02L.valP, List.getD_eq_getElem?_getD, List.getElem?_map, List.getElem?_range hk]
+
+/-- **`blind_rotation_coeff_executed`** — the same read coefficient by coefficient: with `T = X^{Σ a_i s_i}·phase(acc₀)` (the rotated table,
+C14's plaintext-level theorems), for every `k`: `2^(b·S)·val_k(res) = T_k + e + 2^(b·rs+b·S)·q`, `|e| ≤ 2·n_lwe·brB + (#blocks)·brU`. -/
+theorem blind_rotation_coeff_executed (p : Par) (L : Nat) (hok : BrOk p L) (hN2 : 2 * p.N < 2 ^ 62)
+    (acc0 : List Col) (hacc : WfC p acc0) (blocks : List (List (Int × GBit p.N)))
+    (hlen : ∀ blk ∈ blocks, blk.length ≤ L) (hgood : ∀ blk ∈ blocks, ∀ x ∈ blk, Good p x.2 ∧ |x.1| < 2 ^ 62)
+    (hkey : ∀ blk ∈ blocks, OneHot (blk.map fun x => x.2.bit)) :
+    ∃ res, bbLoop p.big128 p.N p.b p.rs p.S (p.rank + 1) p.dnum acc0 (blocks.map blkKeys) = some res ∧ WfC p res ∧
+      ∀ k, k < p.N → ∃ e q : Int,
+        2 ^ (p.b * p.S) * Core.valCoeff p.b (Core.Ops.phase p.sk (Ks.mkCt p.b p.N res)) k
+          = (RingNu.coefL p.N (rt p.N ^ RingNu.xexp p.N (keyRot blocks) * phR p acc0)).getD k 0 + e + (p.modulus : Int) * q ∧
+        |e| ≤ 2 * (nBits blocks * brB p) + blocks.length * brU p := by
+  obtain ⟨res, h1, h2, h3⟩ := blind_rotation_noise_executed p L hok hN2 acc0 hacc blocks hlen hgood hkey
+  refine ⟨res, h1, h2, ?_⟩
+  intro k hk
+  obtain ⟨e, q, heq, he⟩ := RingNu.coef_of_nu _ _ h3 k
+  rw [RingNu.coefL_sub hok.1, coef_phR p hok.1 res k hk] at heq
+  exact ⟨e, q, by linarith, he⟩
+
+/-- **`blind_rotation_correct_executed`** — exact decoding: when coefficient `k` of the rotated table is `v·Δ` (`Δ` the step of the table
+encoding, at the scale `2^(b·S)`; C14's `blind_plain_eval`: `v = ±f[index]`) and the accumulated error is below half a step, rounding
+coefficient `k` of the decrypted result to the grid gives `v` modulo `M/Δ` (`Δ ∣ M`): the blind rotation evaluates the table exactly. -/
+theorem blind_rotation_correct_executed (p : Par) (L : Nat) (hok : BrOk p L) (hN2 : 2 * p.N < 2 ^ 62)
+    (acc0 : List Col) (hacc : WfC p acc0) (blocks : List (List (Int × GBit p.N)))
+    (hlen : ∀ blk ∈ blocks, blk.length ≤ L) (hgood : ∀ blk ∈ blocks, ∀ x ∈ blk, Good p x.2 ∧ |x.1| < 2 ^ 62)
+    (hkey : ∀ blk ∈ blocks, OneHot (blk.map fun x => x.2.bit))
+    (k : Nat) (hk : k < p.N) (v Δ Q : Int) (hΔ : 0 < Δ) (hQ : (p.modulus : Int) = Δ * Q)
+    (hval : (RingNu.coefL p.N (rt p.N ^ RingNu.xexp p.N (keyRot blocks) * phR p acc0)).getD k 0 = v * Δ)
+    (hnum : 2 * (2 * (nBits blocks * brB p) + blocks.length * brU p) < Δ) :
+    ∃ res, bbLoop p.big128 p.N p.b p.rs p.S (p.rank + 1) p.dnum acc0 (blocks.map blkKeys) = some res ∧
+      ∃ q : Int, (2 ^ (p.b * p.S) * Core.valCoeff p.b (Core.Ops.phase p.sk (Ks.mkCt p.b p.N res)) k + Δ / 2) / Δ = v + Q * q := by
+  obtain ⟨res, h1, _, h3⟩ := blind_rotation_coeff_executed p L hok hN2 acc0 hacc blocks hlen hgood hkey
+  refine ⟨res, h1, ?_⟩
+  obtain ⟨e, q, heq, he⟩ := h3 k hk
+  refine ⟨q, ?_⟩
+  rw [heq, hval, hQ]
+  have : v * Δ + e + Δ * Q * q + Δ / 2 = (v + Q * q) * Δ + e + Δ / 2 := by ring
+  rw [this]
+  exact Noise.round_exact _ _ _ hΔ (by linarith)
+
+/-! ## The whole function: `execute_block_binary` / `blind_rotation_execute` -/
+
+/-- the blocks of the run: `izip!(a.chunks_exact(block), brk.data.chunks_exact(block))` with the key elements carrying their bit and error -/
+def blocksG {N : Nat} (block : Nat) (a : List Int) (gs : List (GBit N)) : List (List (Int × GBit N)) :=
+  List.zipWith List.zip (Lut.chunksExact block a.length a) (Lut.chunksExact block gs.length gs)
+
+theorem chunksExact_map {α β : Type} (f : α → β) (block : Nat) : ∀ (fuel : Nat) (l : List α),
+    Lut.chunksExact block fuel (l.map f) = (Lut.chunksExact block fuel l).map (List.map f) := by
+  intro fuel
+  induction fuel with
+  | zero => intro l; rfl
+  | succ n ih =>
+    intro l
+    unfold Lut.chunksExact
+    rw [List.length_map]
+    split
+    · rfl
+    · rw [List.map_cons, ← List.map_take, ← List.map_drop, ih]
+
+theorem zipWith_zip_map {α β γ : Type} (f : β → γ) : ∀ (A : List (List α)) (B : List (List β)),
+    List.zipWith List.zip A (B.map (List.map f)) = (List.zipWith List.zip A B).map (List.map (fun x => (x.1, f x.2))) := by
+  intro A
+  induction A with
+  | nil => intro B; simp
+  | cons a t ih =>
+    intro B
+    cases B with
+    | nil => simp
+    | cons b u =>
+      simp only [List.map_cons, List.zipWith_cons_cons, ih]
+      congr 1
+      rw [List.zip_map_right]
+      apply List.map_congr_left
+      intro x _; rfl
+
+theorem blocksOf_map {N : Nat} (block : Nat) (a : List Int) (gs : List (GBit N)) :
+    blocksOf block a (gs.map (·.g)) = (blocksG block a gs).map blkKeys := by
+  unfold blocksOf blocksG
+  rw [List.length_map, chunksExact_map, zipWith_zip_map]
+  rfl
+
+theorem chunksExact_mem {α : Type} (block : Nat) : ∀ (fuel : Nat) (l : List α), ∀ c ∈ Lut.chunksExact block fuel l,
+    c.length = block ∧ ∀ y ∈ c, y ∈ l := by
+  intro fuel
+  induction fuel with
+  | zero => intro l c hc; simp [Lut.chunksExact] at hc
+  | succ n ih =>
+    intro l c hc
+    unfold Lut.chunksExact at hc
+    split at hc
+    · simp at hc
+    · rename_i hcond
+      rcases List.mem_cons.mp hc with rfl | h
+      · refine ⟨by rw [List.length_take]; omega, fun y hy => List.mem_of_mem_take hy⟩
+      · obtain ⟨h1, h2⟩ := ih _ c h
+        exact ⟨h1, fun y hy => List.mem_of_mem_drop (h2 y hy)⟩
+
+theorem blocksG_mem {N : Nat} (block : Nat) (a : List Int) (gs : List (GBit N)) (blk : List (Int × GBit N)) (h : blk ∈ blocksG block a gs) :
+    blk.length ≤ block ∧ ∀ x ∈ blk, x.1 ∈ a ∧ x.2 ∈ gs := by
+  unfold blocksG at h
+  obtain ⟨i, hi, rfl⟩ := List.mem_iff_getElem.mp h
+  rw [List.length_zipWith] at hi
+  rw [List.getElem_zipWith]
+  obtain ⟨c1, c2⟩ := chunksExact_mem block a.length a _ (List.getElem_mem (by omega : i < (Lut.chunksExact block a.length a).length))
+  obtain ⟨d1, d2⟩ := chunksExact_mem block gs.length gs _ (List.getElem_mem (by omega : i < (Lut.chunksExact block gs.length gs).length))
+  refine ⟨by rw [List.length_zip]; omega, ?_⟩
+  intro x hx
+  have := List.of_mem_zip (a := x.1) (b := x.2) hx
+  exact ⟨c2 _ this.1, d2 _ this.2⟩
+
+/-- **`execute_block_binary_noise_executed`** — the theorem about the whole executed function `Core.Blind.executeBlockBinary` (what
+`blind_rotation_execute` runs for a `BinaryBlock(block)` key, `block > 1`, `extension_factor = 1`): given the mod-switched ciphertext
+`b₀ :: a` (`Lut.modSwitch2n`, C14's `index_error` bounds its inner product with the key), a key of good elements with one-hot blocks and a
+table whose rotated copy is a well-formed accumulator, the call RETURNS `res` with
+`phase(res) = X^{Σ a_i s_i}·phase(X^{b₀}·LUT) + e`, `ν(e) ≤ 2·n_lwe'·brB + q·brU` (`q` blocks, `n_lwe' = q·block` coefficients used). -/
+theorem execute_block_binary_noise_executed (p : Par) (L : Nat) (hok : BrOk p L) (hN2 : 2 * p.N < 2 ^ 62)
+    (lwe : Blind.Lwe) (lut : LutIn) (block : Nat) (gs : List (GBit p.N)) (b0 : Int) (a : List Int)
+    (hgs : gs ≠ []) (hblk : 0 < block) (hbL : block ≤ L)
+    (hms : Lut.modSwitch2n (2 * lut.domain) lwe.base2k lwe.limbs lut.left = .ok (b0 :: a))
+    (hg : ∀ x ∈ gs, Good p x) (ha : ∀ ai ∈ a, |ai| < 2 ^ 62)
+    (hinit : WfC p (initAcc p.N p.b p.rs p.rank b0 (lut.data.getD 0 [])).cols)
+    (hkey : ∀ blk ∈ blocksG block a gs, OneHot (blk.map fun x => x.2.bit)) :
+    ∃ res, executeBlockBinary p.big128 p.N p.rs p.rank lwe lut { dist := .binaryBlock block, keys := gs.map (·.g) } = .ok res ∧ WfC p res ∧
+      RingNu.nu p.modulus p.N (phR p res - rt p.N ^ RingNu.xexp p.N (keyRot (blocksG block a gs))
+          * phR p (initAcc p.N p.b p.rs p.rank b0 (lut.data.getD 0 [])).cols)
+        ≤ 2 * (nBits (blocksG block a gs) * brB p) + (blocksG block a gs).length * brU p := by
+  obtain ⟨res, h1, h2, h3⟩ := blind_rotation_noise_executed p L hok hN2 _ hinit (blocksG block a gs)
+    (fun blk hb => le_trans (blocksG_mem block a gs blk hb).1 hbL)
+    (fun blk hb x hx => ⟨hg _ ((blocksG_mem block a gs blk hb).2 x hx).2, ha _ ((blocksG_mem block a gs blk hb).2 x hx).1⟩) hkey
+  refine ⟨res, ?_, h2, h3⟩
+  cases gs with
+  | nil => exact absurd rfl hgs
+  | cons g0 rest =>
+    obtain ⟨hgn, _, hgb, hgr, hgdn, _, hgS, _⟩ := hg g0 (by simp)
+    have hk0 : (Brk.k0 { dist := .binaryBlock block, keys := (g0 :: rest).map (·.g) }) = g0.g := rfl
+    unfold executeBlockBinary
+    rw [hk0]
+    simp only [List.map_cons, List.isEmpty_cons, Bool.false_eq_true, if_false, hgn, hgr, beq_self_eq_true, Ops.check, if_true, hms, Ops.bind,
+      Dist.blockSize, hgb, hgS, hgdn]
+    rw [if_neg (by omega)]
+    have := blocksOf_map block a (g0 :: rest)
+    simp only [List.map_cons] at this
+    rw [this, h1]
+    rfl
+
 end C14Exec
